@@ -445,7 +445,7 @@ def replay_transform_frame(use_std, use_avg):
         import ciderpress.models.kernels as K
         rng = np.random.RandomState(0)
         X, Y = rng.rand(3, 2), rng.rand(4, 2)
-        kern = K.DiffTransform(K.DiffRBF(length_scale=[1.0, 1.0]), np.eye(2), std=np.array([2.0, 3.0]) if use_std else None, avg=np.array([0.1, 0.2]) if use_avg else None)
+        kern = K.DiffTransform(K.DiffRBF(length_scale=np.array([1.0, 1.0])), np.eye(2), std=np.array([2.0, 3.0]) if use_std else None, avg=np.array([0.1, 0.2]) if use_avg else None)
         X0, Y0 = X.copy(), Y.copy()
         kern(X, Y)
         kern.k_and_deriv(X, Y)
